@@ -45,6 +45,7 @@ type lockWorld struct {
 	dead  bool   // the store could not be restarted: abandon the world
 	key   string
 	locks []*RedisLock
+	secsv []int64 // what SetExpire was last called with, per instance (0 for a new instance)
 	// wide: times and seconds are logged as two-limb numbers [hi, lo] = hi*10^6 + lo
 	// (RedisLockWideTrace.tla) so that the whole range of SetExpire (0 .. 2^32-1 seconds,
 	// leases up to 4.3e12 ms) can be driven; otherwise plain integers (RedisLockTrace.tla)
@@ -125,7 +126,20 @@ func (w *lockWorld) begin(n int) {
 	for i := 0; i < n; i++ {
 		w.locks = append(w.locks, NewRedisLock(w.r, w.key))
 	}
+	w.secsv = make([]int64, n)
 	w.em.Emit(verifEv{"e": "reset", "n": n})
+}
+
+// holderIdx: which instance of the trace carries the identity val (white-box, see
+// zz_verif_c19_wb_test.go; -2: none of them, or the identities cannot be read).
+func (w *lockWorld) holderIdx(val string) int {
+	h := -2
+	for i, l := range w.locks {
+		if id, ok := lockIdentOf(l); ok && id == val {
+			h = i
+		}
+	}
+	return h
 }
 
 // obs records the key as the store has it (no call to the code under test).
@@ -139,12 +153,7 @@ func (w *lockWorld) obs() {
 		w.em.Emit(verifEv{"e": "obs", "held": false, "h": -1, "ttl": w.tv(0)})
 		return
 	}
-	h := -2
-	for i, l := range w.locks {
-		if l.id == val {
-			h = i
-		}
-	}
+	h := w.holderIdx(val)
 	w.em.Emit(verifEv{"e": "obs", "held": true, "h": h, "ttl": w.tv(int64(w.m.TTL(w.key) / time.Millisecond))})
 }
 
@@ -192,6 +201,7 @@ func (w *lockWorld) release(i int) {
 
 func (w *lockWorld) setExpire(i int, s int64) {
 	w.locks[i].SetExpire(int(s))
+	w.secsv[i] = s
 	w.em.Emit(verifEv{"e": "setExpire", "i": i, "s": w.tv(s)})
 }
 
@@ -354,7 +364,7 @@ func TestVerifLockRandom(t *testing.T) {
 				w.setExpire(i, w.pickSecs(rnd, len(lockSecs)))
 			case x < 95:
 				ttl := w.ttlMs()
-				lease := int64(w.locks[i].seconds)*1000 + 500
+				lease := w.secsv[i]*1000 + 500
 				var d int64
 				switch y := rnd.Intn(10); {
 				case y < 2 && ttl > 1:
@@ -513,10 +523,8 @@ func TestVerifLockConcurrent(t *testing.T) {
 				case 3:
 					// the current holder (as the store has it) lets go
 					if val, err := w.m.Get(w.key); err == nil {
-						for j, l := range w.locks {
-							if l.id == val {
-								w.release(j)
-							}
+						if j := w.holderIdx(val); j >= 0 {
+							w.release(j)
 						}
 					}
 				default:
@@ -659,10 +667,8 @@ func TestVerifLockSched(t *testing.T) {
 			// who holds the key now (as the store has it): rounds are built around that instance
 			cur := -1
 			if val, err := w.m.Get(w.key); err == nil {
-				for j, l := range w.locks {
-					if l.id == val {
-						cur = j
-					}
+				if j := w.holderIdx(val); j >= 0 {
+					cur = j
 				}
 			}
 			k := 2 + rnd.Intn(3)
